@@ -433,12 +433,26 @@ func (w *verifWorld) kill(vs *verifSess) {
 		return
 	}
 	vs.dead = true
-	vs.s.cleanUp(false)
+	cdone := make(chan struct{})
+	go func() {
+		defer close(cdone)
+		defer func() { recover() }()
+		vs.s.cleanUp(false)
+	}()
+	select {
+	case <-cdone:
+	case <-time.After(2 * time.Second):
+		// a cleanUp that never returns is recorded by the caller as a hang (C14); the harness must not hang with it
+		verifHungCleanups++
+		return
+	}
 	select {
 	case <-vs.done:
 	case <-time.After(2 * time.Second):
 	}
 }
+
+var verifHungCleanups int
 
 // ---------------------------------------------------------------- quiescence
 
